@@ -180,6 +180,8 @@ def run_case(case):
         return out
     if case.get("docfault"):
         for nth in (1, 2):
+            # (also on the RunStart itself: the run is open, gets a RunStop, and must own a span like any other)
+            out += run_and_judge({"plan": plan, "doc_fault": ["start", nth], "decisions": []}, nm, None)
             out += run_and_judge({"plan": plan, "doc_fault": ["stop", nth], "decisions": []}, nm, None)
             for c in coords[::5]:
                 out += run_and_judge({"plan": plan, "doc_fault": ["stop", nth], "inj": [[c[0], c[1], "abort"]], "decisions": []}, nm, None)
